@@ -325,6 +325,23 @@ def runLine (line : String) : String :=
             s!"err {p} [{",".intercalate (sortNames (pos.map (ruleName names)))}] [{",".intercalate (sortNames (neg.map (ruleName names)))}]")
       | _, _ => "bad-op"
     | _ => "bad-op"
+  | "SA" :: ex :: rest =>
+    -- C08, soundness on the grammar as written: furthest position and ALL attempts made there
+    match sexpParse rest with
+    | some (.list rs :: .atom rule :: ins) =>
+      match rs.mapM ruleOf, ins.mapM (fun (x : SExp) => match x with | .atom h => strOf h | _ => none) with
+      | some rules, some inputs =>
+        let names := rules.map (·.name)
+        " | ".intercalate (inputs.map fun input =>
+          match RefTrace.traceMeaning rules (ex = "1") noUni 100000 rule input with
+          | (.ok _, _) => "ok"
+          | (.stuck, _) => "stuck"
+          | (.fuel, _) => "fuel"
+          | (.fail, calls) =>
+            let (p, pos, neg) := RefTrace.allAttempts calls
+            s!"err {p} [{",".intercalate (sortNames (pos.map (ruleName names)))}] [{",".intercalate (sortNames (neg.map (ruleName names)))}]")
+      | _, _ => "bad-op"
+    | _ => "bad-op"
   | "S" :: ex :: rest =>
     -- C08: the failure report specified on the call tree of the reference semantics
     match sexpParse rest with
